@@ -44,6 +44,12 @@ def shard_main(pid, specfile, outfile):
         spec = json.load(f)
     acc = core.Acc()
     t0 = time.time()
+    # the machine's local time zone is not part of any property: every third shard runs west of UTC, every third east
+    zone = [None, 'EST5', 'JST-9'][int(spec.get('shard', 0)) % 3]
+    if zone is not None:
+        os.environ['TZ'] = zone
+        time.tzset()
+    acc.sets.setdefault('local_time_zones_of_the_shards', set()).add(zone or 'UTC')
     try:
         mod.run_shard(spec, acc)
     except Exception:
